@@ -50,6 +50,10 @@ type childCfg struct {
 	Dir       string        `json:"dir"`
 	Out       string        `json:"out"`
 	LogLevel  int32         `json:"log_level"`
+	PortBase  int           `json:"port_base"` // this child probes its ports inside [PortBase, PortBase+PortSpan)
+	PortSpan  int           `json:"port_span"`
+	// development aid (VERIF_C19_FAKE_COLLISION): die like a child whose server lost the race for a port
+	FakeCollision bool `json:"fake_collision,omitempty"`
 }
 
 type childOut struct {
@@ -97,6 +101,11 @@ func childRun(args []string) int {
 	if err := json.Unmarshal(b, &cfg); err != nil {
 		fmt.Fprintln(os.Stderr, err)
 		return 2
+	}
+	setPortBlock(cfg.PortBase, cfg.PortSpan)
+	if cfg.FakeCollision {
+		fmt.Println("panic: failed to listen rafthttp : listen tcp 127.0.0.1:1: bind: address already in use (simulated)")
+		return 1
 	}
 	os.MkdirAll(cfg.Dir, 0755)
 	lf, err := os.Create(filepath.Join(cfg.Dir, "repo.log"))
@@ -238,6 +247,7 @@ func genScenarios(c *vc.Ctx) (plain []scenarioCfg, raced []scenarioCfg) {
 type childProc struct {
 	label   string
 	variant string
+	attempt int
 	cfg     childCfg
 	cfgPath string
 	cmd     *exec.Cmd
@@ -383,25 +393,83 @@ func runC19(c *vc.Ctx) error {
 	if os.Getenv("VERIF_C19_LOG") == "info" {
 		logLevel = common.LOG_INFO
 	}
-	var children []*childProc
-	mk := func(label, variant string, scs []scenarioCfg, par int) {
-		if len(scs) == 0 {
-			return
-		}
-		dir := filepath.Join(c.Scratch, label)
-		children = append(children, &childProc{label: label, variant: variant,
-			cfg: childCfg{Scenarios: scs, Parallel: par, Dir: dir, Out: filepath.Join(c.Scratch, label+".out.json"), LogLevel: logLevel}})
+	// One child per group of scenarios, so that a child that dies (a port
+	// collision with another check kills the whole process: rafthttp panics,
+	// the redis listener calls os.Exit) only takes its own group with it; a
+	// child that died with "address already in use" is relaunched with a fresh
+	// port block for the scenarios that have no result yet (3 attempts).
+	blocks := newPortBlocks(c.Seed)
+	setPortBlock(blocks.next()) // the parent's own block (ports of the end-to-end processes)
+	type group struct {
+		label, variant string
+		scs            []scenarioCfg
 	}
-	mk("plain", "plain", plain, c.Pick(10, 8))
-	mk("race", "race", raced, c.Pick(3, 4))
-	timeout := time.Duration(c.Pick(140, 1500)) * time.Second
+	var groups []group
+	split := func(label, variant string, scs []scenarioCfg, size int) {
+		for i := 0; i < len(scs); i += size {
+			j := i + size
+			if j > len(scs) {
+				j = len(scs)
+			}
+			groups = append(groups, group{fmt.Sprintf("%s%d", label, i/size), variant, scs[i:j]})
+		}
+	}
+	split("plain", "plain", plain, 4)
+	split("race", "race", raced, c.Pick(3, 4))
+	timeout := time.Duration(c.Pick(140, 600)) * time.Second
+	// at most this many children of a kind at a time (quick: all of them)
+	sem := map[string]chan struct{}{"plain": make(chan struct{}, c.Pick(8, 2)), "race": make(chan struct{}, c.Pick(4, 1))}
+	var mu sync.Mutex
+	var finished []*childProc
+	var raceDirs []string
 	var wg sync.WaitGroup
-	for _, cp := range children {
+	for _, g := range groups {
 		wg.Add(1)
-		go func(cp *childProc) {
+		go func(g group) {
 			defer wg.Done()
-			startChild(c, cp, "c19-run", timeout)
-		}(cp)
+			sem[g.variant] <- struct{}{}
+			defer func() { <-sem[g.variant] }()
+			todo := g.scs
+			for attempt := 1; attempt <= 3 && len(todo) > 0; attempt++ {
+				label := fmt.Sprintf("%s-a%d", g.label, attempt)
+				base, span := blocks.next()
+				cp := &childProc{label: label, variant: g.variant, attempt: attempt,
+					cfg: childCfg{Scenarios: todo, Parallel: len(todo), Dir: filepath.Join(c.Scratch, label), Out: filepath.Join(c.Scratch, label+".out.json"),
+						LogLevel: logLevel, PortBase: base, PortSpan: span, FakeCollision: attempt == 1 && os.Getenv("VERIF_C19_FAKE_COLLISION") != ""}}
+				startChild(c, cp, "c19-run", timeout)
+				got := map[int]bool{}
+				for _, res := range cp.out.Results {
+					got[res.ID] = true
+				}
+				var rest []scenarioCfg
+				for _, sc := range todo {
+					if !got[sc.ID] {
+						rest = append(rest, sc)
+					}
+				}
+				retry := len(rest) > 0 && attempt < 3 && logHas(cp.logPath, "address already in use")
+				mu.Lock()
+				finished = append(finished, cp)
+				if cp.raceDir != "" {
+					raceDirs = append(raceDirs, cp.raceDir)
+				}
+				if retry {
+					c.Ev.Count("children_relaunched_after_port_collision", 1)
+					// the scenarios without result are taken over by the next attempt
+					cp.cfg.Scenarios = nil
+					for _, sc := range todo {
+						if got[sc.ID] {
+							cp.cfg.Scenarios = append(cp.cfg.Scenarios, sc)
+						}
+					}
+				}
+				mu.Unlock()
+				if !retry {
+					break
+				}
+				todo = rest
+			}
+		}(g)
 	}
 	var e2eRes *e2eResult
 	if c.Thorough() && c.Replay == "" && os.Getenv("VERIF_C19_NO_E2E") == "" {
@@ -413,7 +481,8 @@ func runC19(c *vc.Ctx) error {
 	}
 	wg.Wait()
 
-	for _, cp := range children {
+	c.Ev.Count("children_started", int64(len(finished)))
+	for _, cp := range finished {
 		got := map[int]bool{}
 		for _, res := range cp.out.Results {
 			got[res.ID] = true
@@ -424,19 +493,55 @@ func runC19(c *vc.Ctx) error {
 				c.Inconclusive(fmt.Sprintf("scenario %s produced no result (%v); child log kept in %s", sc.Name, cp.err, keepLog(c, cp)))
 			}
 		}
-		if cp.variant == "race" {
-			absorbRace(c, cp)
-		}
+	}
+	if len(raceDirs) > 0 {
+		absorbRace(c, raceDirs)
 	}
 	if e2eRes != nil {
 		absorbE2E(c, e2eRes)
 	}
 	if os.Getenv("VERIF_C19_KEEP") != "" {
-		for _, cp := range children {
+		for _, cp := range finished {
 			fmt.Printf("kept log of %s: %s\n", cp.label, keepLog(c, cp))
 		}
 	}
 	return nil
+}
+
+func logHas(path, needle string) bool {
+	b, err := ioutil.ReadFile(path)
+	return err == nil && strings.Contains(string(b), needle)
+}
+
+// portBlocks hands out disjoint port blocks below the ephemeral range
+// (32768..60999 here, so that outgoing connections of other processes cannot
+// take a probed port); the first block is a function of seed, pid and time so
+// that concurrently running checks rarely share one.
+type portBlocks struct {
+	mu   sync.Mutex
+	cur  int
+	span int
+}
+
+const (
+	portLo = 20000
+	portHi = 32000
+)
+
+func newPortBlocks(seed int64) *portBlocks {
+	span := 200
+	n := (portHi - portLo) / span
+	h := uint64(seed)*2654435761 + uint64(os.Getpid())*40503 + uint64(time.Now().UnixNano()/1000)
+	return &portBlocks{cur: int(h % uint64(n)), span: span}
+}
+
+func (pb *portBlocks) next() (int, int) {
+	pb.mu.Lock()
+	defer pb.mu.Unlock()
+	n := (portHi - portLo) / pb.span
+	base := portLo + (pb.cur%n)*pb.span
+	pb.cur++
+	return base, pb.span
 }
 
 func keepLog(c *vc.Ctx, cp *childProc) string {
